@@ -372,6 +372,18 @@ def deep_eq(a, b, path='', memo=None):
                 return d
         return ''
     if isinstance(a, dict):
+        ua = [k for k in a if isinstance(k, str) and k.startswith('@uuid')]
+        ub = [k for k in b if isinstance(k, str) and k.startswith('@uuid')]
+        if ua or ub:
+            # generated identifiers used as keys: pair them with the keys the other side has and this side lacks, in order
+            gen, other = (a, b) if ua else (b, a)
+            ug = ua if ua else ub
+            free = [k for k in other if k not in gen]
+            if len(free) != len(ug):
+                return f'{path}: keys {list(a.keys())!r:.120} vs {list(b.keys())!r:.120}'
+            ren = dict(zip(ug, free))
+            gen2 = {ren.get(k, k): v for k, v in gen.items()}
+            a, b = (gen2, other) if ua else (other, gen2)
         if list(a.keys()) != list(b.keys()):
             if set(map(repr, a.keys())) != set(map(repr, b.keys())):
                 return f'{path}: keys {list(a.keys())!r:.120} vs {list(b.keys())!r:.120}'
